@@ -233,3 +233,22 @@ func init() {
 			Expect: []string{"C18.R1@"}, Why: "owners are filtered by the kind of the event object instead of the watcher type: no ObjectTemplate is ever enqueued"},
 	)
 }
+
+// Round seven (X1): the template checker list built by make + append instead of a literal.
+func init() {
+	const tc = "internal/controllers/objecttemplate/objecttemplate_controller.go"
+	list := "\t\t\tpreflight.NewAPIExistence(\n\t\t\t\trestMapper,\n\t\t\t\tpreflight.List{\n\t\t\t\t\tpreflight.NewNoOwnerReferences(restMapper),\n\t\t\t\t\tpreflight.NewEmptyNamespaceNoDefault(restMapper),\n\t\t\t\t\tpreflight.NewNamespaceEscalation(restMapper),\n\t\t\t\t},\n\t\t\t),\n"
+	ctl := "\tcontroller := &GenericObjectTemplateController{\n\t\tnewObjectTemplate: newObjectTemplate,\n"
+	appended := func(name, build string, expect ...string) Mutant {
+		return Mutant{Prop: "C18", Name: name, File: tc, Old: list, New: "\t\t\tpreflight.NewAPIExistence(restMapper, checks),\n",
+			More: []Edit{{File: tc, Old: ctl, New: build + ctl}}, Benign: len(expect) == 0, Expect: expect}
+	}
+	wiring := "C18.R3@internal/controllers/objecttemplate.newGenericObjectTemplateController#checker-wiring"
+	addMutants(
+		appended("r3-benign-template-checks-appended-to-made-list", "\tchecks := make(preflight.List, 0, 3)\n\tchecks = append(checks,\n\t\tpreflight.NewNoOwnerReferences(restMapper),\n\t\tpreflight.NewEmptyNamespaceNoDefault(restMapper),\n\t\tpreflight.NewNamespaceEscalation(restMapper),\n\t)\n"),
+		appended("r3-benign-template-checks-appended-one-by-one", "\tchecks := make(preflight.List, 0, len(cfg.OptionalResourceRetryInterval.String()))\n\tchecks = append(checks, preflight.NewNoOwnerReferences(restMapper))\n\tchecks = append(checks, preflight.NewEmptyNamespaceNoDefault(restMapper))\n\tchecks = append(checks, preflight.NewNamespaceEscalation(restMapper))\n"),
+		appended("r3-appended-template-checks-without-namespace-escalation", "\tchecks := make(preflight.List, 0, 3)\n\tchecks = append(checks,\n\t\tpreflight.NewNoOwnerReferences(restMapper),\n\t\tpreflight.NewEmptyNamespaceNoDefault(restMapper),\n\t)\n", wiring),
+		appended("r3-template-checks-appended-in-a-loop-that-may-not-run", "\tchecks := make(preflight.List, 0, 3)\n\tfor i := 0; i < int(cfg.ResourceRetryInterval.Seconds()); i++ {\n\t\tchecks = append(checks,\n\t\t\tpreflight.NewNoOwnerReferences(restMapper),\n\t\t\tpreflight.NewEmptyNamespaceNoDefault(restMapper),\n\t\t\tpreflight.NewNamespaceEscalation(restMapper),\n\t\t)\n\t}\n", wiring),
+		appended("r3-appended-template-checks-overwritten-through-shared-array", "\tbase := make(preflight.List, 0, 3)\n\tchecks := append(base,\n\t\tpreflight.NewNoOwnerReferences(restMapper),\n\t\tpreflight.NewEmptyNamespaceNoDefault(restMapper),\n\t\tpreflight.NewNamespaceEscalation(restMapper),\n\t)\n\t_ = append(base, preflight.NewEmptyNamespaceNoDefault(restMapper), preflight.NewEmptyNamespaceNoDefault(restMapper), preflight.NewEmptyNamespaceNoDefault(restMapper))\n", wiring),
+	)
+}
